@@ -155,8 +155,9 @@ inline Dual eval(const Recipe &r, int i, ve::Env &env, const std::string &wrt)
             return Dual{v, verif_rational(nd.p, nd.q) * v / a.v * a.d};
         }
         case O_SQRT: {
-            double rt = ve::root12_of(a.v);
-            double v = ve::ipow(rt, 6);
+            // numeric radicand: degree-2 encoding (sqrt(2/3) is printed as sqrt(6)/3); otherwise through the 12th root shared
+            // with the rational powers of the positive symbol
+            double v = r.n[nd.a].op == L_NUM ? ve::sqrt_of(a.v) : ve::ipow(ve::root12_of(a.v), 6);
             return Dual{v, a.d / (2.0 * v)};
         }
         case O_SIN: return Dual{ve::Sin(a.v), ve::Cos(a.v) * a.d};
